@@ -268,7 +268,7 @@ Proof. revert k; induction l as [|a l IH]; intros k; [destruct k; reflexivity|].
 Lemma aw_noarr a iv arr arr' : waits_on (Some a) = None ->
   aw_rec a iv arr = aw_rec a iv arr' /\ aw_end a iv arr = aw_end a iv arr' /\ aw_arr a arr = arr /\ aw_arr a arr' = arr' /\ aw_ok a arr'.
 Proof.
-  destruct a as [s|v dl|biased tie sa sb| | | | |rearm d3 s sx|pre s]; try (cbn [waits_on]; discriminate); try (intros _; repeat split; reflexivity).
+  destruct a as [s|v dl|biased tie sa sb| | | | |rearm d3 s sx|pre s|kr chi cho]; try (cbn [waits_on]; discriminate); try (intros _; repeat split; reflexivity).
   destruct v; cbn [waits_on]; intros H; try discriminate; repeat split; reflexivity.
 Qed.
 
@@ -287,7 +287,7 @@ Lemma aw_wake_held a iv : aw_kind a iv ->
 Proof.
   assert (H1 : forall s : sleep, (exists s', In s' [s] /\ deadline s' = deadline s) /\ forall s', In s' [s] -> deadline s <= deadline s').
   { intros s. split; [exists s; split; [left; reflexivity|reflexivity]|intros s' [<-|[]]; lia]. }
-  destruct a as [s|v dl|biased tie sa sb| | | | |rearm d3 s sx|pre s]; try contradiction.
+  destruct a as [s|v dl|biased tie sa sb| | | | |rearm d3 s sx|pre s|kr chi cho]; try contradiction.
   - intros _. apply H1.
   - destruct v as [s| |ch|]; try contradiction; intros _; cbn [aw_held held_sleeps aw_wake]; [apply min2|apply H1].
   - intros _. cbn [aw_held held_sleeps aw_wake]. apply min2.
@@ -298,7 +298,7 @@ Qed.
 
 Lemma aw_wake_in_rec a iv arr : aw_kind a iv -> waits_on (Some a) = None -> In (aw_wake a iv) (aw_rec a iv arr).
 Proof.
-  destruct a as [s|v dl|biased tie sa sb| | | | |rearm d3 s sx|pre s]; try contradiction.
+  destruct a as [s|v dl|biased tie sa sb| | | | |rearm d3 s sx|pre s|kr chi cho]; try contradiction.
   - intros _ _. left; reflexivity.
   - destruct v as [s| |ch|]; try contradiction; [intros _ _; left; reflexivity|intros _ H; discriminate].
   - intros _ _. left; reflexivity.
@@ -314,7 +314,7 @@ Proof.
   destruct Hst as [-> _ _|a' st rest _ _ _ _ H5 _ Hk _ _ H9 Hao _ _|_ _ _ H4 _ _ _].
   - rewrite I2 in Hc. discriminate.
   - rewrite H5 in Hc. injection Hc as ->. destruct (waits_on (Some a)) as [ch|] eqn:Ew.
-    + destruct a as [s|v dl| | | | | | |]; try discriminate; try contradiction. destruct v; try discriminate. exact (proj1 Hao).
+    + destruct a as [s|v dl| | | | | | | |]; try discriminate; try contradiction. destruct v; try discriminate. exact (proj1 Hao).
     + rewrite Forall_forall in I7. apply I7. rewrite H9.
       apply in_or_app. right. apply in_or_app. left. exact (aw_wake_in_rec a _ _ Hk Ew).
   - rewrite H4 in Hc. discriminate.
